@@ -103,6 +103,7 @@ fn to_fields(f: &[i64; 10]) -> Fields {
 fn err_of(e: DErr) -> ErrorKind {
     match e {
         DErr::Range => ErrorKind::Range,
+        DErr::SpecAssert => ErrorKind::Assert,
     }
 }
 
@@ -131,7 +132,10 @@ impl Space for RoundRelative {
         let ff = to_fields(&f);
         for (largest, smallest, inc) in &self.cells {
             for mode in ALL_MODES {
-                let model = r5r::round_relative(&ff, rel, *largest, *inc, *smallest, mode);
+                let model = match std::panic::catch_unwind(|| r5r::round_relative(&ff, rel, *largest, *inc, *smallest, mode)) {
+                    Ok(m) => m,
+                    Err(_) => panic!("reference model failed on duration={f:?} rel={rel:?} largest={largest} inc={inc} smallest={smallest} mode={mode:?}"),
+                };
                 let attrs = || {
                     vec![
                         ("duration", format!("{f:?}")),
@@ -166,6 +170,12 @@ impl Space for RoundRelative {
                                 let back = add_date_time(origin, date, time, Overflow::Constrain);
                                 out.law("start + round(d, no rounding) = start + d", back == Ok(target), attrs);
                             }
+                        }
+                    }
+                    Err(DErr::SpecAssert) => {
+                        out.unjudged += 1;
+                        if got.is_panic() {
+                            out.lockstep("Duration::round(relativeTo plain date)", &Ok([0i128; 10]), &got, |_, _| true, attrs);
                         }
                     }
                     Err(e) => {
@@ -229,6 +239,9 @@ impl Space for TotalRelative {
                         out.nontrivial += 1;
                     }
                     out.lockstep("Duration::total(relativeTo plain date)", &Ok((*num, *den)), &got, |a, b| close_to_rational(b.as_inner(), a.0, a.1), attrs);
+                }
+                Err(DErr::SpecAssert) => {
+                    out.unjudged += 1;
                 }
                 Err(e) => {
                     out.lockstep("Duration::total(relativeTo plain date)", &Err::<(i128, i128), _>(err_of(*e)), &got, |_, _| false, attrs);
@@ -316,17 +329,29 @@ impl Space for UntilRounded {
                         }
                         let settings = diff(Some(tunit(largest)), Some(tunit(smallest)), Some(imode(mode)), Some(inc as u32));
                         let got = call(|| da.until(&db, settings));
-                        out.lockstep("PlainDate::until(rounded)", &model, &got, |m, x| dur_i128(x) == *m, || attrs("PlainDate", "until", 0, 0));
+                        if model == Err(ErrorKind::Assert) {
+                            out.unjudged += 1;
+                        } else {
+                            out.lockstep("PlainDate::until(rounded)", &model, &got, |m, x| dur_i128(x) == *m, || attrs("PlainDate", "until", 0, 0));
+                        }
                         // since = -(until with the negated mode)
                         let model_since = r5r::diff_with_rounding(Dt::new(ya, 0), Dt::new(yb, 0), largest, inc, smallest, mode.negate()).and_then(|d| r5r::from_internal(&d, 3)).map(|f| f.map(|x| -x)).map_err(err_of);
                         let got = call(|| da.since(&db, settings));
-                        out.lockstep("PlainDate::since(rounded)", &model_since, &got, |m, x| dur_i128(x) == *m, || attrs("PlainDate", "since", 0, 0));
+                        if model_since == Err(ErrorKind::Assert) {
+                            out.unjudged += 1;
+                        } else {
+                            out.lockstep("PlainDate::since(rounded)", &model_since, &got, |m, x| dur_i128(x) == *m, || attrs("PlainDate", "since", 0, 0));
+                        }
                         // PlainDateTime with times of day
                         for (ta, tb) in self.tods.iter().zip(self.tods.iter().rev()) {
                             let (Oc::Ok(pa), Oc::Ok(pb)) = (call(|| plain_date_time(a, *ta)), call(|| plain_date_time(b, *tb))) else { continue };
                             let model = r5r::diff_with_rounding(Dt::new(ya, *ta), Dt::new(yb, *tb), largest, inc, smallest, mode).and_then(|d| r5r::from_internal(&d, largest)).map_err(err_of);
                             let got = call(|| pa.until(&pb, settings));
-                            out.lockstep("PlainDateTime::until(rounded)", &model, &got, |m, x| dur_i128(x) == *m, || attrs("PlainDateTime", "until", *ta, *tb));
+                            if model == Err(ErrorKind::Assert) {
+                                out.unjudged += 1;
+                            } else {
+                                out.lockstep("PlainDateTime::until(rounded)", &model, &got, |m, x| dur_i128(x) == *m, || attrs("PlainDateTime", "until", *ta, *tb));
+                            }
                         }
                     }
                 }
